@@ -166,7 +166,7 @@ func (c *canon) instr(in ssa.Instruction) {
 	case ssa.CallInstruction:
 		com := x.Common()
 		if com.IsInvoke() {
-			extra = "invoke " + com.Method.Name()
+			extra = "invoke " + methodName(com.Method)
 		} else if f := com.StaticCallee(); f != nil {
 			extra = "static " + c.fn(f)
 		} else {
@@ -765,6 +765,49 @@ func ruleSIB6(w *World) []Ob {
 	}
 	if n == 0 {
 		l.undecided("-", "pipeline workers with an embedded simple stage", "-", "none found", "reuse")
+	}
+	// every pipeline stage type that wraps a simple stage has such a worker
+	if pk := p.ModPkgs[modulePath]; pk != nil {
+		covered := map[string]bool{}
+		for _, o := range l.list {
+			if i := strings.Index(o.Func, ")."); i > 0 {
+				covered[strings.TrimPrefix(o.Func[:i], "(*gtree.")] = true
+			}
+		}
+		scope := pk.Types.Scope()
+		for _, name := range scope.Names() {
+			tn, ok := scope.Lookup(name).(*types.TypeName)
+			if !ok {
+				continue
+			}
+			st, ok := tn.Type().Underlying().(*types.Struct)
+			if !ok {
+				continue
+			}
+			wraps := ""
+			for i := 0; i < st.NumFields(); i++ {
+				if st.Field(i).Embedded() && strings.HasSuffix(typeName(st.Field(i).Type()), "Simple") {
+					wraps = typeName(st.Field(i).Type())
+				}
+			}
+			if wraps == "" || covered[name] {
+				continue
+			}
+			// does the type start goroutines at all?
+			starts := false
+			for _, fn := range libFuncs(p) {
+				if recvTypeName(outermost(fn)) == name {
+					allInstrs(fn, func(in ssa.Instruction) {
+						if g, isGo := in.(*ssa.Go); isGo && inLoop(g) { // a pool of workers, not a single collector goroutine
+							starts = true
+						}
+					})
+				}
+			}
+			if starts {
+				l.bad("gtree."+name, "stage workers run on the pipeline stage object", p.Pos(tn.Pos()), "the massive-mode stage "+name+" starts a pool of goroutines but none of them is a worker method of "+name+" that calls "+wraps+"'s per-root methods through the embedded object: the per-root work runs on something else (a copy, another object), so settings applied to the stage (validation, formats) may not reach it", "reuse")
+			}
+		}
 	}
 	// From-Root and From-Markdown routes of one tree use the same stage objects: every method of
 	// treeSimple / treePipeline reaches the stages only through the tree's own fields
